@@ -28,6 +28,7 @@ def native_rename(tree_json, k=0):
 
 def run(chk):
     thorough = chk.tier == 'thorough'
+    chk.bounds['families added after seeded changes'] = 'contexts with one auxiliary variable set and proposition names as long as the auxiliary BDD variable names; one closed shape at two nesting depths (3 skeletons); native fallback (enumeration) only if a part is unexplored'
     n = len(TL.skeletons())
     chk.bounds.update({'skeletons': f'{n} tree skeletons of height <= 5 with up to 7 variable-name slots (quantifiers, jumps and occurrences at many positions, domains, wild-cards)',
                        'names': f'every slot has its own symbolic name of 1 (thorough: also 2) characters, so the solver decides every equality pattern between names (incl. names equal to x / xx); one proposition name is 2 symbolic characters (valid or invalid network variable)',
